@@ -1,4 +1,5 @@
 import ActixNet.Model.Worker
+import ActixNet.Model.ServerCmd
 import Driver.Util
 /-! Engine `worker`: line protocol for the `ServerWorker::poll` model (`ActixNet.Worker`), C06/C07. -/
 namespace Driver.Worker
@@ -81,6 +82,54 @@ def pollObs (old new : St) : String :=
     s!"ev=[{ev}] ret={if new.finished then "D" else "P"} replies=[{",".intercalate (reps.map (·.2))}] " ++
     s!"closed=[{",".intercalate (closed.map toString)}] raw={new.raw}"
 
+/-! ### server level (C06): `ServerCmd` for the command loop, `Worker.replyTime` for each worker -/
+
+def parseHolds (t : String) : Option (List (Option Nat)) :=
+  if t == "-" then some [] else
+  (t.splitOn ",").mapM fun x => if x == "n" then some none else x.toNat?.map some
+
+def bucket (ms : Nat) : Nat := (ms + 400) / 1000
+
+/-- the connections of worker `w` when `holds` are dispatched round-robin over `workers` workers -/
+def holdsOf (holds : List (Option Nat)) (workers w : Nat) : List (Option Nat) :=
+  (holds.zipIdx.filter fun p => p.2 % workers == w).map (·.1)
+
+def srvObs (ws : List String) : String :=
+  let workers := ((kv ws "workers").bind (·.toNat?)).getD 1
+  let timeout := ((kv ws "timeout").bind (·.toNat?)).getD 1
+  let mode : Option Bool := match kv ws "mode" with | some "g" => some true | some "f" => some false | _ => none
+  let second : Option (Option Bool) := match kv ws "second" with
+    | none => some none | some "g" => some (some true) | some "f" => some (some false) | _ => none
+  match mode, (kv ws "holds").bind parseHolds, second with
+  | some g, some holds, some second =>
+    if workers == 0 || workers > 4 || holds.length > 6 then "bad-op" else
+    let dropFut := kv ws "drop" == some "1"
+    let paused := kv ws "paused" == some "1"
+    let calls : List ServerCmd.Call := (if paused then [.pause] else []) ++ [.stop g] ++ (match second with | some g2 => [.stop g2] | none => [])
+    let run := ServerCmd.serve workers calls
+    let stopAck := if paused then 1 else 0
+    -- when the blocking points of the handled `Stop` are released
+    let tWorkers := if g then ((List.range workers).map fun w => (Worker.replyTime (timeout * 1000) 0 (holdsOf holds workers w)).1).foldl max 0 else 0
+    let k := toString (bucket tWorkers)
+    let stop := if dropFut then "dropped" else if run.log.contains (.ack stopAck) then k else "never"
+    let server := if run.returned then k else "never"
+    let sec := match second with
+      | none => "-"
+      | some _ => if run.log.contains (.ack (stopAck + 1)) || run.log.contains (.ackDropped (stopAck + 1)) then k else "never"
+    s!"stop={stop} server={server} second={sec} after=none"
+  | _, _, _ => "bad-op"
+
+def sigObs (ws : List String) : String :=
+  let timeout := ((kv ws "timeout").bind (·.toNat?)).getD 1
+  let sig : Option Src.Signal := match kv ws "sig" with | some "int" => some .Int | some "term" => some .Term | some "quit" => some .Quit | _ => none
+  match sig, (kv ws "hold").bind parseHolds with
+  | some sig, some [h] =>
+    let run := ServerCmd.serve 1 [.signal sig]
+    let t := if Src.mapSignalGraceful sig then (Worker.replyTime (timeout * 1000) 0 [h]).1 else 0
+    -- `force_system_stop`: the command loop sleeps 300 ms before stopping the System
+    if run.returned then s!"exit={(t + 300 + 100) / 1000}" else "exit=never"
+  | _, _ => "bad-op"
+
 def step (st : State) (line : String) : State × String :=
   let ws := words line
   match ws with
@@ -91,6 +140,8 @@ def step (st : State) (line : String) : State × String :=
     | some svcs =>
       ({ s := ActixNet.Worker.init { n := n, timeout := timeout, svcs := fun i => svcs.getD i {} }, started := true }, "ok")
     | none => ({ st with started := false }, "bad-case")
+  | "srv" :: _ => (st, srvObs ws)
+  | "sig" :: _ => (st, sigObs ws)
   | ["k-worker"] =>
     (st, s!"tick-first={Src.wkTickFirstMs} tick-next={Src.wkTickNextMs} init={Src.wcInit}")
   | ["k-timedout", e, t] => match e.toNat?, t.toNat? with
